@@ -3080,18 +3080,32 @@ impl QueryJob {
                                     }
                                 }
 
-                                for (relation, tuple) in delete_ops {
-                                    let count = storage
-                                        .delete_tuples_from(&kg_name, &relation, vec![tuple])
-                                        .map_err(|e| e.to_string())?;
-                                    deleted += count;
+                                // One engine operation per relation: the deletes and inserts
+                                // of an update become visible (and durable) together. Applying
+                                // them tuple by tuple let concurrent requests and a crash see the
+                                // old tuples gone and the new ones not yet there.
+                                let mut relations: Vec<String> = Vec::new();
+                                for (relation, _) in delete_ops.iter().chain(insert_ops.iter()) {
+                                    if !relations.contains(relation) {
+                                        relations.push(relation.clone());
+                                    }
                                 }
-
-                                for (relation, tuple) in insert_ops {
-                                    let (new_count, _) = storage
-                                        .insert_tuples_into(&kg_name, &relation, vec![tuple])
+                                for relation in relations {
+                                    let dels: Vec<Tuple> = delete_ops
+                                        .iter()
+                                        .filter(|(r, _)| *r == relation)
+                                        .map(|(_, t)| t.clone())
+                                        .collect();
+                                    let ins: Vec<Tuple> = insert_ops
+                                        .iter()
+                                        .filter(|(r, _)| *r == relation)
+                                        .map(|(_, t)| t.clone())
+                                        .collect();
+                                    let (d, i) = storage
+                                        .update_tuples_in(&kg_name, &relation, dels, ins)
                                         .map_err(|e| e.to_string())?;
-                                    inserted += new_count;
+                                    deleted += d;
+                                    inserted += i;
                                 }
 
                                 // Track insert count for metrics
